@@ -255,6 +255,33 @@ Definition model_functions : list (string * (list (string * list (string * bool)
   ], []))
 ].
 
+(** ** big.Int aliasing discipline.
+    The Gallina model has immutable integers; that is a faithful reading of the Go code only if no
+    stored balance is ever updated IN PLACE, because balance pointers are shared: CreateAccount hands
+    the previous object's pointer to the new object ("shared" row), Balance() returns the stored
+    pointer ("alias"), reverts re-install the pointer kept by the journal entry.  Every update must
+    store a FRESH big.Int ("fresh" rows) and journal entries must keep their own COPY. *)
+Definition model_bigint : list (string * string) := [
+  ("assign", "StateDB.CreateAccount: setBalance shared recv.createObject(p0)#1.account.BalanceWei");
+  ("assign", "StateDB.SetBalanceWei: SetBalance param");
+  ("assign", "StateDB.Suicide: BalanceWei := fresh new(big.Int)");
+  ("assign", "balanceChange.Revert: setBalance entry recv.prevWei");
+  ("assign", "newObject: BalanceNative := fresh new(big.Int)");
+  ("assign", "stateObject.AddBalance: SetBalance fresh new(big.Int).Add(recv.Balance(),p0)");
+  ("assign", "stateObject.SetBalance: setBalance param");
+  ("assign", "stateObject.SubBalance: SetBalance fresh new(big.Int).Sub(recv.Balance(),p0)");
+  ("assign", "stateObject.setBalance: BalanceWei := param");
+  ("assign", "suicideChange.Revert: setBalance entry recv.prevbalance");
+  ("getter", "stateObject.Balance alias recv.account.BalanceWei");
+  ("journal-prev", "balanceChange.prevWei copy");
+  ("journal-prev", "suicideChange.prevbalance copy")
+].
+
+Definition no_inplace (t : list (string * string)) : bool :=
+  forallb (fun r => negb (String.eqb (fst r) "inplace")) t.
+Lemma model_no_inplace : no_inplace model_bigint = true.
+Proof. reflexivity. Qed.
+
 (** ** link to the Gallina definitions *)
 Definition entry_name (e : entry) : string :=
   match e with
